@@ -86,6 +86,10 @@ func wrapName(w int) string {
 		return "pointer-to-alias"
 	case WrapPtrNS:
 		return "pointer-to-alias-without-String"
+	case WrapLoud:
+		return "alias-with-divergent-String"
+	case WrapPtrLoud:
+		return "pointer-to-alias-with-divergent-String"
 	}
 	return "native"
 }
@@ -301,13 +305,13 @@ func genC12(t *rapid.T, tier Tier) C12Case {
 func init() {
 	Register(Def[C12Case]{
 		ID: "C12",
-		Rule: "rapid-generated description D (stacks of all kinds with presentation/index options, Conditions with primitive/Stack/Condition expressions, nil leaves) plus a wrap assignment W giving every nested Stack/Condition one of {native, alias without String, alias with String, pointer to alias with/without String}; " +
+		Rule: "rapid-generated description D (stacks of all kinds with presentation/index options, Conditions with primitive/Stack/Condition expressions, nil leaves) plus a wrap assignment W giving every nested Stack/Condition one of {native, alias without String, alias with a delegating String, alias with a String of its own that says something else, pointer to any of these}; " +
 			"Build(D, all native) is the reference, Build(D, W) the subject. Differential oracle: String, IsEqual (both directions, subject-subject, alias/pointer as the argument), Unmarshal, 15 Traverse paths, IsNesting and Condition.Len/String at every node, Transfer (alias destination) and Defrag must be indistinguishable; " +
 			"ConvertStack/ConvertCondition return the underlying instance for 13 positive forms and (zero,false) without panic for 19 negative forms. non-trivial = W wraps at least one node at depth>=1 non-natively; distinct = distinct case JSON",
 		Gen: genC12,
 		Run: runC12,
 		Floors: map[string]float64{"cond-expr-alias-without-String": 0.02, "cond-expr-alias-with-String": 0.02, "cond-expr-pointer-to-alias": 0.02, "stack-pointer-to-alias": 0.1,
-			"alias-inside-alias": 0.05, "cond-alias-without-String": 0.05, "converter-probes": 0.9},
+			"alias-inside-alias": 0.05, "cond-alias-without-String": 0.05, "converter-probes": 0.9, "cond-expr-alias-with-divergent-String": 0.01, "stack-alias-with-divergent-String": 0.05},
 		Assumptions: []string{"ConvertCondition(Condition{}) on the native zero value is not asserted (the statement lists nil, zero aliases and unrelated types)"},
 	})
 }
